@@ -5,6 +5,6 @@ CONSTANTS
   MaxAttempt = 6
   Kinds = {"signing", "dkg"}
   Slots = {1, 2}
-  AllOrders = FALSE
+  AllCalls = FALSE
   Variant = "contract"
 INVARIANTS TypeOK Agreement ExcludedWellFormed OnlyReady SigningExact DkgQualified ErrorsExact
